@@ -3,11 +3,15 @@ rcdriver: the model side of the line protocol.  `rcdriver Cxx < ops.txt`
 answers each request line from the Lean model of property Cxx.
 Imports model files only (no Mathlib, no theorem files) so that it links.
 -/
+import Rc.Drv.C10
+import Rc.Drv.C11
 import Rc.Drv.C15
 import Rc.Drv.C18
 
 def dispatch (prop : String) : Option (List String → String) :=
   match prop with
+  | "C10" => some Rc.Drv.C10.handle
+  | "C11" => some Rc.Drv.C11.handle
   | "C15" => some Rc.Drv.C15.handle
   | "C18" => some Rc.Drv.C18.handle
   | _ => none
